@@ -222,11 +222,15 @@ def c06_nofields(entry, name):
 
             blob = msgpack.packb(msgpack.ExtType(14, msgpack.packb((2, (name, None)), use_bin_type=True)), use_bin_type=True)
             d = RecordPacker().unpack(blob)
+        elif entry == "avro_doc_text":
+            from flow.record.adapter.avro import schema_to_descriptor
+
+            d = schema_to_descriptor({"type": "record", "name": "x", "namespace": "", "fields": [], "doc": json.dumps([name, None])})
         else:
             d = JsonRecordPacker().unpack(json.dumps({"_type": "recorddescriptor", "_data": [name, None]}))
     except Exception as e:
         return {"violates": False, "outcome": f"rejected: {type(e).__name__}"}
-    bad = "\n" in name or d.name != name
+    bad = ("\n" in name or d.name != name) and not (entry == "avro_doc_text" and d.name == "x")
     return {"violates": bad, "detail": f"a definition without a field list whose name text is {name!r} was accepted as the type {d.name!r} with the fields {d.get_field_tuples()!r}" if bad else None}
 
 
